@@ -135,4 +135,63 @@ theorem rt_scalarJson_of_fixed {W : World} {C : Codec} (hS : ScalarRT W C)
   rw [hd] at h1; cases h1
   rw [hfix name x d d' hi hd hj]; exact h2
 
+/-! ### rejection by outer form (to discharge the non-overlap condition of unions) -/
+
+section reject
+variable {W : World} {cfg : Cfg} {d : Val}
+
+/-- the dict loader rejects whatever is not a mapping, whatever the fuel -/
+theorem rt_reject_dict (n : Nat) (k v : Ty) (h : d.isMapping = false) :
+    ∃ e, load W cfg (n + 1) (.dict k v) d = .err e := by
+  cases d <;> simp [Val.isMapping] at h <;> exact ⟨_, rfl⟩
+
+/-- the model loader rejects whatever is not a mapping -/
+theorem rt_reject_model (n : Nat) {cls : String} {fields : List Field}
+    (hc : W.classes cls = some fields) (h : d.isMapping = false) :
+    ∃ e, load W cfg (n + 1) (.model cls) d = .err e := by
+  cases d <;> simp [Val.isMapping] at h <;> simp only [load, hc, loadModel] <;> split <;>
+    exact ⟨_, rfl⟩
+
+/-- strict coercion: the iterable loader rejects mappings and strings -/
+theorem rt_reject_iter_strict (n : Nat) (f : Factory) (dl : Bool) (elem : Ty)
+    (hs : cfg.strict = true) (h : d.isMapping = true ∨ d.isStr = true) :
+    ∃ e, load W cfg (n + 1) (.iter f dl elem) d = .err e := by
+  refine ⟨LErr.leaf "ExcludedTypeLoadError" d, ?_⟩
+  simp only [load, loadIter, strictExcluded, hs, Bool.true_and]
+  rcases h with h | h <;> simp [h]
+
+/-- the iterable loader rejects what cannot be iterated (None, numbers, atoms, objects) -/
+theorem rt_reject_iter_noniter (n : Nat) (f : Factory) (dl : Bool) (elem : Ty)
+    (h : d.iterElems = none) : ∃ e, load W cfg (n + 1) (.iter f dl elem) d = .err e := by
+  simp only [load, loadIter, h]
+  split <;> exact ⟨_, rfl⟩
+
+/-- strict coercion: the tuple loader rejects mappings and strings -/
+theorem rt_reject_tuple_strict (n : Nat) (elems : List Ty)
+    (hs : cfg.strict = true) (h : d.isMapping = true ∨ d.isStr = true) :
+    ∃ e, load W cfg (n + 1) (.tuple elems) d = .err e := by
+  refine ⟨LErr.leaf "ExcludedTypeLoadError" d, ?_⟩
+  simp only [load, loadTuple, strictExcluded, hs, Bool.true_and]
+  rcases h with h | h <;> simp [h]
+
+theorem rt_reject_tuple_noniter (n : Nat) (elems : List Ty)
+    (h : d.iterElems = none) : ∃ e, load W cfg (n + 1) (.tuple elems) d = .err e := by
+  simp only [load, loadTuple, h]
+  split <;> exact ⟨_, rfl⟩
+
+/-- travel keeps the outer form: a mapping stays a mapping, a sequence stays a sequence -/
+theorem rt_trav_dict_shape {j : Bool} {kvs : List (Val × Val)} {d' : Val}
+    (h : Trav j (.dict kvs) d') : d'.isMapping = true := by
+  obtain ⟨kvs', rfl, _⟩ := rt_trav_dict h; rfl
+
+theorem rt_trav_seq_shape {j : Bool} {ds : List Val} {d d' : Val}
+    (hd : d = .list ds ∨ d = .tuple ds) (h : Trav j d d') :
+    d'.isMapping = false ∧ d'.isStr = false := by
+  rcases hd with rfl | rfl
+  · obtain ⟨ds', rfl, _⟩ := rt_trav_list h; exact ⟨rfl, rfl⟩
+  · obtain ⟨ds', hd', _⟩ := rt_trav_tuple h
+    rcases hd' with rfl | rfl <;> exact ⟨rfl, rfl⟩
+
+end reject
+
 end Adaptix.Morph
